@@ -13,6 +13,7 @@ from vlib import common as C
 LEAN_MODULES = ["Cpf.Props.C20"]
 
 PIECES = ['"', "\\", "\n", "\r\n", "\t", "<", ">", "&", " ", " ", "\x00", "\x01", "\x08", "\x0c", "\x1f", "\x7f", "é", "日本", "😀", "'", "/", "\\u0041", "\\n",
+          "\\u003c", "\\u003e", "\\u0026", "\\u2028", "\\\\", "\\\"", "\\", "u003c", "&lt;", "\u2028", "\u2029", "\ufeff", "\\/",
           "FROM a AS b SELECT b", "/* c */", "{", "}", "[", "]", ":", ",", " ", "%", "</script>"]
 
 
